@@ -1,7 +1,7 @@
 (* Properties_C07.v — C07, the part a model can carry: the run always ends with exit status 0, 1 or 2, and the model's
    parsers are total (they answer on every byte string; see Properties_C08.v for "never out of fuel").
    Memory safety, signed overflow and aborts of the C++ are observed with sanitizers on generated inputs, not proved. *)
-From PatchV Require Import Base Lines Hunk Options World Driver.
+From PatchV Require Import Base Lines Hunk Options World Driver Locator Formatter Applier LineParser Parser Spec_Locate Proofs_Unified Proofs_Apply Proofs_ArithParse Proofs_ArithHeader Proofs_ArithSize Proofs_Arith.
 
 Theorem exit_status_range : forall o stdin w, rr_exit (run_patch o stdin w) <= 2.
 Proof.
@@ -16,3 +16,312 @@ Proof.
   cbn [mret] in E. inversion E. destruct (had_failure st1); lia.
 Qed.
 Print Assumptions exit_status_range.
+
+(* ---------------------------------------------------------------------------------------------------------------
+   C07, signed arithmetic: every integer the model computes at a site where the C++ uses plain (non-saturating) int64
+   arithmetic lies in [-2^63, 2^63-1], for every patch the parser accepts and every target (proofs in Proofs_ArithParse.v,
+   Proofs_ArithHeader.v, Proofs_ArithSize.v, Proofs_Arith.v; the table of sites is the comment at the top of Proofs_Arith.v). *)
+Local Open Scope Z_scope.
+
+(* ---- saturating sites ---- *)
+Theorem sat64_in64 : forall z, in64 (sat64 z).
+Proof. exact Proofs_ArithParse.sat64_in64. Qed.
+Print Assumptions sat64_in64.
+
+(* ---- numbers read from the patch ---- *)
+Theorem string_to_line_number_range : forall s v, string_to_line_number s = Some v -> 0 <= Z.of_N v <= MAXZ.
+Proof. exact Proofs_ArithParse.string_to_line_number_range. Qed.
+Print Assumptions string_to_line_number_range.
+
+Theorem consume_line_number_range : forall s ok v r, consume_line_number s = Some (ok, v, r) -> 0 <= v <= MAXZ.
+Proof. exact Proofs_ArithParse.consume_line_number_range. Qed.
+Print Assumptions consume_line_number_range.
+
+(* output *= 10 and output += c of string_to_line_number, after their guards *)
+Theorem s2n_sites : forall acc c,
+  is_digit c = true -> N.ltb (MAXLN / 10) acc = false ->
+  (acc * 10 <= MAXLN)%N /\
+  (N.ltb (MAXLN - digit_val c) (acc * 10) = false -> (acc * 10 + digit_val c <= MAXLN)%N).
+Proof. exact Proofs_ArithParse.s2n_sites. Qed.
+Print Assumptions s2n_sites.
+
+(* ---- the range grammars ---- *)
+Theorem parse_unified_range_ok : forall h line h',
+  parse_unified_range h line = (true, h') -> wf_range (oldr h') /\ wf_range (newr h') /\ body h' = body h.
+Proof. exact Proofs_ArithParse.parse_unified_range_ok. Qed.
+Print Assumptions parse_unified_range_ok.
+
+Theorem normal_count_sites : forall a b,
+  0 <= a <= MAXZ -> 0 <= b <= MAXZ ->
+  in64 (b - a) /\ - (MAXZ - 1) <= sadd (b - a) 1 <= MAXZ /\ in64 (sadd (b - a) 1 - 1).
+Proof. exact Proofs_ArithParse.normal_count_sites. Qed.
+Print Assumptions normal_count_sites.
+
+Theorem parse_normal_range_shape : forall h line h',
+  parse_normal_range h line = (true, h') ->
+  body h' = body h /\
+  0 <= rstart (oldr h') <= MAXZ /\ 0 <= rstart (newr h') <= MAXZ /\
+  exists oend nend, 0 <= oend <= MAXZ /\ 0 <= nend <= MAXZ /\
+    (rcount (oldr h') = 0 \/ rcount (oldr h') = Z.max (sadd (oend - rstart (oldr h')) 1) 0) /\
+    (rcount (newr h') = Z.max (sadd (nend - rstart (newr h')) 1) 0 \/
+     rcount (newr h') = Z.max (sadd (nend - rstart (newr h')) 1 - 1) 0).
+Proof. exact Proofs_ArithParse.parse_normal_range_shape. Qed.
+Print Assumptions parse_normal_range_shape.
+
+Theorem parse_normal_range_ok : forall h line h',
+  parse_normal_range h line = (true, h') -> normal_range_ok h' /\ body h' = body h.
+Proof. exact Proofs_ArithParse.parse_normal_range_ok. Qed.
+Print Assumptions parse_normal_range_ok.
+
+Theorem parse_context_range_ok : forall st en s ok st' en',
+  parse_context_range st en s = (ok, st', en') -> 0 <= st <= MAXZ -> 0 <= en <= MAXZ ->
+  0 <= st' <= MAXZ /\ 0 <= en' <= MAXZ.
+Proof. exact Proofs_ArithParse.parse_context_range_ok. Qed.
+Print Assumptions parse_context_range_ok.
+
+(* ---- the body parsers ---- *)
+Theorem unified_counter_sites : forall h oe ne,
+  ucur_ok (Some (h, oe, ne)) ->
+  - Z.of_nat (length (body h)) - 1 <= oe - 1 <= MAXZ /\ - Z.of_nat (length (body h)) - 1 <= ne - 1 <= MAXZ.
+Proof. exact Proofs_ArithParse.unified_counter_sites. Qed.
+Print Assumptions unified_counter_sites.
+
+Theorem unified_loop_good : forall fuel s acc cur le hs s',
+  unified_loop fuel s acc cur le = Ok (hs, s') -> Forall good_hunk acc -> ucur_ok cur -> Forall good_hunk hs.
+Proof. exact Proofs_ArithParse.unified_loop_good. Qed.
+Print Assumptions unified_loop_good.
+
+Theorem parse_unified_patch_good : forall s hs s', parse_unified_patch s = Ok (hs, s') -> Forall good_hunk hs.
+Proof. exact Proofs_ArithParse.parse_unified_patch_good. Qed.
+Print Assumptions parse_unified_patch_good.
+
+Theorem ctx_append_content_site : forall i en,
+  in64 i -> en <= MAXZ -> Z.ltb en i = false -> Z.eqb i en = false -> in64 (i + 1) /\ i + 1 <= en.
+Proof. exact Proofs_ArithParse.ctx_append_content_site. Qed.
+Print Assumptions ctx_append_content_site.
+
+Theorem parse_context_patch_good : forall s hs s', parse_context_patch s = Ok (hs, s') -> Forall good_hunk hs.
+Proof. exact Proofs_ArithParse.parse_context_patch_good. Qed.
+Print Assumptions parse_context_patch_good.
+
+Theorem parse_normal_patch_ok : forall s hs s', parse_normal_patch s = Ok (hs, s') -> Forall normal_hunk_ok hs.
+Proof. exact Proofs_ArithParse.parse_normal_patch_ok. Qed.
+Print Assumptions parse_normal_patch_ok.
+
+Theorem normal_hunk_good : forall h, normal_hunk_ok h -> good_hunk h.
+Proof. exact Proofs_ArithParse.normal_hunk_good. Qed.
+Print Assumptions normal_hunk_good.
+
+Theorem parse_normal_patch_good : forall s hs s', parse_normal_patch s = Ok (hs, s') -> Forall good_hunk hs.
+Proof. exact Proofs_ArithParse.parse_normal_patch_good. Qed.
+Print Assumptions parse_normal_patch_good.
+
+Theorem parse_patch_body_good : forall p s p' s',
+  parse_patch_body p s = Ok (p', s') -> Forall good_hunk (hunks p) -> Forall good_hunk (hunks p').
+Proof. exact Proofs_ArithParse.parse_patch_body_good. Qed.
+Print Assumptions parse_patch_body_good.
+
+Theorem normal_hunk_counts_le : forall h, normal_hunk_ok h ->
+  rcount (oldr h) <= Z.of_nat (length (body h)) /\ rcount (newr h) <= Z.of_nat (length (body h)).
+Proof. exact Proofs_ArithParse.normal_hunk_counts_le. Qed.
+Print Assumptions normal_hunk_counts_le.
+
+Theorem good_hunk_counts : forall h, good_hunk h ->
+  0 <= rcount (oldr h) <= Z.of_nat (length (body h)) /\ 0 <= rcount (newr h) <= Z.of_nat (length (body h)).
+Proof. exact Proofs_ArithParse.good_hunk_counts. Qed.
+Print Assumptions good_hunk_counts.
+
+Theorem parse_patch_good : forall b f strip p, parse_patch b f strip = Ok p -> Forall good_hunk (hunks p).
+Proof. exact Proofs_ArithHeader.parse_patch_good. Qed.
+Print Assumptions parse_patch_good.
+
+Theorem parse_all_good : forall b f strip ps,
+  parse_all b f strip = Ok ps -> Forall (fun p => Forall good_hunk (hunks p)) ps.
+Proof. exact Proofs_ArithHeader.parse_all_good. Qed.
+Print Assumptions parse_all_good.
+
+Theorem parse_patch_size : forall b f strip p, parse_patch b f strip = Ok p -> (blen (hunks p) <= length b)%nat.
+Proof. exact Proofs_ArithSize.parse_patch_size. Qed.
+Print Assumptions parse_patch_size.
+
+Theorem parse_all_size : forall b f strip ps,
+  parse_all b f strip = Ok ps -> Forall (fun p => (blen (hunks p) <= length b)%nat) ps.
+Proof. exact Proofs_ArithSize.parse_all_size. Qed.
+Print Assumptions parse_all_size.
+
+Theorem split_lines_length : forall s, (length (split_lines s) <= length s)%nat.
+Proof. exact Proofs_ArithSize.split_lines_length. Qed.
+Print Assumptions split_lines_length.
+
+(* ---- strip_path ---- *)
+Theorem strip_loop_rem : forall fuel s b rem b' rem',
+  strip_loop fuel s b rem = (b', rem') -> rem - Z.of_nat fuel <= rem' <= rem.
+Proof. exact Proofs_Arith.strip_loop_rem. Qed.
+Print Assumptions strip_loop_rem.
+
+(* ---- locate_hunk ---- *)
+Theorem stated_pos_range : forall h off,
+  0 <= rstart (oldr h) <= MAXZ -> off_ok off -> MINZ + 1 <= stated_pos h off <= MAXZ.
+Proof. exact Proofs_Arith.stated_pos_range. Qed.
+Print Assumptions stated_pos_range.
+
+Theorem locate_offset_ok : forall f h ws off F lo l,
+  locate_hunk f h ws off F lo = Some l -> 0 <= rstart (oldr h) <= MAXZ -> off_ok off -> off_ok (sadd off (loffset l)).
+Proof. exact Proofs_Arith.locate_offset_ok. Qed.
+Print Assumptions locate_offset_ok.
+
+Theorem locate_line_le : forall f h ws off F lo l, locate_hunk f h ws off F lo = Some l -> (lline l <= length f)%nat.
+Proof. exact Proofs_Arith.locate_line_le. Qed.
+Print Assumptions locate_line_le.
+
+Theorem locate_sites_in64 : forall f h off max_fuzz,
+  0 <= rstart (oldr h) <= MAXZ -> off_ok off ->
+  Z.of_nat (length f) + 2 * Z.of_nat (length (body h)) + 1 <= MAXZ ->
+  Forall in64 (locate_sites f h off max_fuzz).
+Proof. exact Proofs_Arith.locate_sites_in64. Qed.
+Print Assumptions locate_sites_in64.
+
+(* ---- apply_patch ---- *)
+Theorem write_any_cursor : forall (o : options) f ln b w,
+  (if is_nil (define_macro o) then Ok (write_hunk f ln b) else write_define_hunk f (define_macro o) ln b) = Ok w ->
+  Z.of_nat (snd w) = Z.of_nat ln + n_old b.
+Proof. exact Proofs_Arith.write_any_cursor. Qed.
+Print Assumptions write_any_cursor.
+
+Theorem apply_one_inv : forall w o p f k s h loc s' L u,
+  apply_one o p f k s h loc = Ok s' -> Inv w L u s -> 0 <= u -> hunk_ok w h -> loc_ok L (a_offerr s) loc ->
+  Inv w L (u + Z.of_nat (length (body h))) s'.
+Proof. exact Proofs_Arith.apply_one_inv. Qed.
+Print Assumptions apply_one_inv.
+
+Theorem step_sites_in64 : forall w L u s h loc,
+  Inv w L u s -> 0 <= u -> 0 <= L -> hunk_ok w h -> loc_ok L (a_offerr s) loc ->
+  L + u + Z.of_nat (length (body h)) + 1 <= MAXZ ->
+  Forall in64 (step_sites w s h loc).
+Proof. exact Proofs_Arith.step_sites_in64. Qed.
+Print Assumptions step_sites_in64.
+
+Theorem apply_rest_inv : forall w o p f hs k s s' u,
+  apply_rest o p f k s hs = Ok s' -> Inv w (Z.of_nat (length f)) u s -> 0 <= u -> Forall (hunk_ok w) hs ->
+  Inv w (Z.of_nat (length f)) (u + Z.of_nat (blen hs)) s'.
+Proof. exact Proofs_Arith.apply_rest_inv. Qed.
+Print Assumptions apply_rest_inv.
+
+Theorem apply_first_inv : forall w o p f s hs s' q,
+  apply_first o p f s hs = Ok (s', q) -> Inv w (Z.of_nat (length f)) 0 s -> Forall (hunk_ok w) hs ->
+  Inv w (Z.of_nat (length f)) (Z.of_nat (blen hs)) s'.
+Proof. exact Proofs_Arith.apply_first_inv. Qed.
+Print Assumptions apply_first_inv.
+
+Theorem apply_patch_sites_in64 : forall o f p0,
+  Forall good_hunk (hunks p0) ->
+  Z.of_nat (length f) + 2 * Z.of_nat (blen (hunks p0)) + 1 <= MAXZ ->
+  Forall in64 (patch_sites o f p0).
+Proof. exact Proofs_Arith.apply_patch_sites_in64. Qed.
+Print Assumptions apply_patch_sites_in64.
+
+Theorem apply_patch_sites_but_o2n_in64 : forall o f p0,
+  Forall starts_ok (hunks p0) ->
+  Z.of_nat (length f) + 2 * Z.of_nat (blen (hunks p0)) + 1 <= MAXZ ->
+  Forall in64 (patch_sites_but_o2n o f p0).
+Proof. exact Proofs_Arith.apply_patch_sites_but_o2n_in64. Qed.
+Print Assumptions apply_patch_sites_but_o2n_in64.
+
+Theorem parse_patch_starts : forall b f strip p, parse_patch b f strip = Ok p -> Forall starts_ok (hunks p).
+Proof. exact Proofs_ArithHeader.parse_patch_starts. Qed.
+Print Assumptions parse_patch_starts.
+
+Theorem parse_all_starts : forall b f strip ps,
+  parse_all b f strip = Ok ps -> Forall (fun p => Forall starts_ok (hunks p)) ps.
+Proof. exact Proofs_ArithHeader.parse_all_starts. Qed.
+Print Assumptions parse_all_starts.
+
+Theorem parsed_patch_sites_but_o2n_in64 : forall b fmt strip p o t,
+  parse_patch b fmt strip = Ok p ->
+  Z.of_nat (length t) + 2 * Z.of_nat (length b) + 1 <= MAXZ ->
+  Forall in64 (patch_sites_but_o2n o (split_lines t) p).
+Proof. exact Proofs_Arith.parsed_patch_sites_but_o2n_in64. Qed.
+Print Assumptions parsed_patch_sites_but_o2n_in64.
+
+Theorem parsed_patch_sites_in64 : forall b fmt strip p o t,
+  parse_patch b fmt strip = Ok p ->
+  Z.of_nat (length t) + 2 * Z.of_nat (length b) + 1 <= MAXZ ->
+  Forall in64 (patch_sites o (split_lines t) p).
+Proof. exact Proofs_Arith.parsed_patch_sites_in64. Qed.
+Print Assumptions parsed_patch_sites_in64.
+
+Theorem parsed_patch_apply_first_inv : forall b fmt strip p o f s' q,
+  parse_patch b fmt strip = Ok p ->
+  apply_first o p f init_state (hunks p) = Ok (s', q) ->
+  AInv (Z.of_nat (length f)) (Z.of_nat (blen (hunks p))) s'.
+Proof. exact Proofs_Arith.parsed_patch_apply_first_inv. Qed.
+Print Assumptions parsed_patch_apply_first_inv.
+
+Theorem parsed_sections_sites_in64 : forall b fmt strip ps o t,
+  parse_all b fmt strip = Ok ps ->
+  Z.of_nat (length t) + 2 * Z.of_nat (length b) + 1 <= MAXZ ->
+  Forall (fun p => Forall in64 (patch_sites o (split_lines t) p)) ps.
+Proof. exact Proofs_Arith.parsed_sections_sites_in64. Qed.
+Print Assumptions parsed_sections_sites_in64.
+
+(* ---- SUMMARY ---- *)
+(* For a patch file b and a target file t whose sizes satisfy |t| + 2|b| + 1 <= 2^63 - 1 bytes, any options o, any format
+   option fmt and any strip count: when the model's parser returns p (resp. the sections ps),
+     (1) every number the parser read is a line number in [0, MAXZ];
+     (2) the hunks of p are good hunks (counts = numbers of body lines) and p has at most |b| body lines;
+     (3) every value at a plain-arithmetic site of locate_hunk / apply_patch is in int64 -- the two sites which involve
+         offset_old_lines_to_new (applier.cpp:195 and :377) included -- for p and for every section of ps;
+     (4) the loop of apply_patch keeps |offset_old_lines_to_new| <= number of body lines processed, line_number <= lines of
+         the file + that number, offset_error in [-(MAXZ-1), MAXZ];
+     (5) the saturating sites are in int64 by construction.
+   No hypothesis on the patch is left: whatever bytes the parser accepts. *)
+Theorem plain_arith_in_range :
+  (forall s ok v r, consume_line_number s = Some (ok, v, r) -> 0 <= v <= MAXZ) /\
+  (forall z, in64 (sat64 z)) /\
+  (forall b fmt strip p, parse_patch b fmt strip = Ok p ->
+     (blen (hunks p) <= length b)%nat /\ Forall good_hunk (hunks p)) /\
+  (forall b fmt strip p o t, parse_patch b fmt strip = Ok p ->
+     Z.of_nat (length t) + 2 * Z.of_nat (length b) + 1 <= MAXZ ->
+     Forall in64 (patch_sites o (split_lines t) p)) /\
+  (forall b fmt strip ps o t, parse_all b fmt strip = Ok ps ->
+     Z.of_nat (length t) + 2 * Z.of_nat (length b) + 1 <= MAXZ ->
+     Forall (fun p => Forall in64 (patch_sites o (split_lines t) p)) ps) /\
+  (forall b fmt strip p o f s' q, parse_patch b fmt strip = Ok p ->
+     apply_first o p f init_state (hunks p) = Ok (s', q) ->
+     AInv (Z.of_nat (length f)) (Z.of_nat (blen (hunks p))) s').
+Proof.
+  split; [exact Proofs_ArithParse.consume_line_number_range|].
+  split; [exact Proofs_ArithParse.sat64_in64|].
+  split; [intros b fmt strip p H; split; [exact (Proofs_ArithSize.parse_patch_size _ _ _ _ H)|exact (Proofs_ArithHeader.parse_patch_good _ _ _ _ H)]|].
+  split; [exact Proofs_Arith.parsed_patch_sites_in64|].
+  split; [exact Proofs_Arith.parsed_sections_sites_in64|exact Proofs_Arith.parsed_patch_apply_first_inv].
+Qed.
+Print Assumptions plain_arith_in_range.
+
+(* ---- the hypotheses are satisfiable: a two-hunk unified patch parsed by the model, a five line file ---- *)
+Example ok_instance :
+  parse_patch ok_patch FUnknown (-1) = Ok ok_parsed /\ length (hunks ok_parsed) = 2%nat /\
+  Forall good_hunk (hunks ok_parsed) /\
+  Z.of_nat (length ok_file) + 2 * Z.of_nat (blen (hunks ok_parsed)) + 1 <= MAXZ /\
+  forall o, Forall in64 (patch_sites o ok_file ok_parsed).
+Proof.
+  split; [exact ok_parsed_eq|]. split; [apply ok_parsed_two_hunks|]. split; [exact ok_parsed_good|].
+  split; [exact ok_parsed_fits|exact ok_sites_in64].
+Qed.
+Print Assumptions ok_instance.
+
+(* ---- the former witness of the overflow at applier.cpp:377 is harmless now ---- *)
+(* patch file "9223372036854775807,1c5,7\n> a\n> b\n> c\n", target file "x\n".  Before the repair of parse_normal_range the
+   model parsed one hunk with old count -(2^63-3), applied it, and 'new.number_of_lines - old.number_of_lines' was 2^63.
+   Now: old count 0, the hunk is rejected, and every site value is in int64 (for all options by the theorem; listed for the
+   default options) *)
+Example former_witness_harmless :
+  parse_patch bad_patch FUnknown (-1) = Ok bad_parsed /\
+  map (fun h => (rcount (oldr h), rcount (newr h), length (body h))) (hunks bad_parsed) = [(0, 3, 3%nat)] /\
+  (forall o, Forall in64 (patch_sites o one_line_file bad_parsed)) /\
+  patch_sites default_options one_line_file bad_parsed = [0; 0; 0; 2; 0; 0; 1; 1; 0; 0; 0; 2; 0; 0; 1; 1; 3; 3].
+Proof.
+  split; [exact bad_parsed_eq|]. split; [exact bad_parsed_counts|].
+  split; [exact Proofs_Arith.former_witness_harmless|exact former_witness_sites].
+Qed.
+Print Assumptions former_witness_harmless.
